@@ -11,6 +11,7 @@ import (
 
 	"github.com/gobwas/ws"
 	"github.com/gobwas/ws/wsflate"
+	"github.com/gobwas/ws/wsutil"
 
 	"verifmc/hs"
 
@@ -205,6 +206,90 @@ func main() {
 				}
 			})
 			t.Note(fmt.Sprintf("every valid stream of depth<=%d (controls: 10-byte Ping, 2-byte Pong) x every cut offset x {EOF, transport error, error together with the last bytes} x 7 drivers", D))
+		})
+
+		// A long-lived reader is discarding a fragmented message when the transport reports a
+		// temporary error at a frame boundary (an idle timeout); the caller carries on with the
+		// same reader, and then the stream ends for good - at every later offset before the final
+		// fragment is complete. No call reports success for the message that was cut, and the end
+		// of the stream is never reported as a clean one.
+		r.Part("E1c-cut-after-a-temporary-error-while-discarding", func(t *explore.T) {
+			for _, side := range []streams.Side{streams.Server, streams.Client} {
+				mk := func(i int, op byte, fin bool, p string) []byte {
+					return streams.Frame{H: refmodel.Hdr{Fin: fin, Op: op, Masked: side == streams.Server, Mask: streams.Masks[i%3]}, Payload: []byte(p)}.Wire()
+				}
+				for _, withPing := range []bool{false, true} {
+					parts := [][]byte{mk(0, 1, false, "ab"), mk(1, 0, false, "cd")}
+					if withPing {
+						parts = append(parts, mk(2, 9, true, "pi"))
+					}
+					parts = append(parts, mk(0, 0, true, "ef"))
+					var data []byte
+					var ends []int
+					for _, p := range parts {
+						data = append(data, p...)
+						ends = append(ends, len(data))
+					}
+					for hi := 0; hi < len(ends)-1; hi++ {
+						for cut := ends[hi]; cut < len(data); cut++ {
+							for _, consume := range []string{"Discard", "Read"} {
+								side, hiccupAt, cut, consume, withPing := side, ends[hi], cut, consume, withPing
+								t.Do(func() string {
+									return fmt.Sprintf("%s Text-(ab) Cont-(cd) ping=%v Cont(ef): temporary error at offset %d while the caller %ss, then the stream ends at %d of %d", side, withPing, hiccupAt, consume, cut, len(data))
+								}, func() *explore.Fail {
+									src := env.NewSrc(data)
+									src.Cut = cut
+									var source io.Reader = src
+									if cut > hiccupAt {
+										src.HiccupAt, src.HiccupErr = hiccupAt, env.TempErr{IsTimeout: true}
+									} else {
+										// the stream ends right where the temporary error was: the error first, then the end
+										source = &tempAtEnd{src: src}
+									}
+									rd := &wsutil.Reader{Source: source, State: drivers.State(side)}
+									rd.OnIntermediate = func(h ws.Header, r io.Reader) error {
+										_, err := io.Copy(io.Discard, r)
+										return err
+									}
+									if _, err := rd.NextFrame(); err != nil {
+										return explore.Failf("harness-first-frame", "%v", err)
+									}
+									sawTemp := false
+									for i := 0; i < 8; i++ {
+										var err error
+										if consume == "Discard" {
+											err = rd.Discard()
+										} else {
+											_, err = io.ReadAll(rd)
+										}
+										if _, temp := err.(env.TempErr); temp {
+											sawTemp = true
+											continue
+										}
+										if err == nil {
+											return explore.Failf("cut-message-reported-complete-after-temporary-error:"+consume, "%s returned nil although the stream ended at %d of %d", consume, cut, len(data))
+										}
+										if err == io.EOF {
+											return explore.Failf("clean-EOF-inside-a-message-after-temporary-error:"+consume, "%s returned io.EOF", consume)
+										}
+										// the message is lost; a caller that asks for the next frame anyway is not told
+										// that the stream ended cleanly
+										if _, nerr := rd.NextFrame(); cut <= ends[len(ends)-2] && (nerr == nil || nerr == io.EOF) {
+											return explore.Failf("clean-end-of-stream-inside-a-message-after-temporary-error:"+consume, "after %s failed with %v, NextFrame returned %v", consume, err, nerr)
+										}
+										if !sawTemp {
+											return explore.Failf("harness-no-temporary-error", "")
+										}
+										t.Outcome("cut-reported")
+										return nil
+									}
+									return explore.Failf("harness-loop", "")
+								})
+							}
+						}
+					}
+				}
+			}
 		})
 
 		r.Part("E1b-ReadFrame-every-cut", func(t *explore.T) {
@@ -577,6 +662,20 @@ func (c *failWriteConn) Write(p []byte) (int, error) {
 		return n, env.ErrInjected
 	}
 	return c.LazyConn.Write(p)
+}
+
+// tempAtEnd reports one temporary error when its source has nothing more to give, then the end.
+type tempAtEnd struct {
+	src   *env.Src
+	fired bool
+}
+
+func (t *tempAtEnd) Read(p []byte) (int, error) {
+	if !t.fired && t.src.Cut >= 0 && t.src.Off >= t.src.Cut {
+		t.fired = true
+		return 0, env.TempErr{IsTimeout: true}
+	}
+	return t.src.Read(p)
 }
 
 func dialCut(d ws.Dialer, conn *hs.LazyConn, u *url.URL, cut int, kind string, _ **env.Src) (*bufio.Reader, ws.Handshake, error) {
